@@ -3,10 +3,17 @@ package worldr
 import (
 	"bytes"
 	"context"
+	"crypto/ecdsa"
+	"crypto/ed25519"
+	"crypto/elliptic"
+	"crypto/rand"
+	"crypto/x509"
+	"crypto/x509/pkix"
 	"encoding/base64"
 	"encoding/hex"
 	"fmt"
 	"io"
+	"math/big"
 	"os"
 	"path/filepath"
 	"runtime"
@@ -141,6 +148,8 @@ func runC07(r *core.Run) {
 	efiRoot := filepath.Join(scratch, "efivars")
 	os.MkdirAll(efiRoot, 0o755)
 	os.WriteFile(filepath.Join(efiRoot, "FirmwareRIM-"+googleGUID), append([]byte{7, 0, 0, 0}, is.Bytes...), 0o644)
+	os.WriteFile(filepath.Join(efiRoot, "Short-"+googleGUID), []byte{7, 0}, 0o644)
+	reader := exel.MakeEfiVarFSReader(efiRoot) // one long-lived reader for the whole run
 	net := NewSimNet(r)
 	net.Objects[SnpURL(meas)] = is.Bytes
 
@@ -232,7 +241,7 @@ func runC07(r *core.Run) {
 				name, call = "extract.Attestation", func() { extract.Attestation(q) }
 			case 1:
 				name, call = "extract.Endorsement(quote)", func() {
-					extract.Endorsement(&extract.Options{Quote: q, Getter: net, UEFIVariableReader: exel.MakeEfiVarFSReader(efiRoot)})
+					extract.Endorsement(&extract.Options{Quote: q, Getter: net, UEFIVariableReader: reader})
 				}
 			case 2:
 				name, call = "TdxValidate(quote)", func() {
@@ -265,7 +274,7 @@ func runC07(r *core.Run) {
 				p := filepath.Join(scratch, fmt.Sprintf("log%d", i))
 				os.WriteFile(p, l, 0o644)
 				name, call = "extract.Endorsement(event-log)", func() {
-					extract.Endorsement(&extract.Options{EventLogLocation: p, FirmwareManufacturer: "Google, Inc.", Getter: net, UEFIVariableReader: exel.MakeEfiVarFSReader(efiRoot)})
+					extract.Endorsement(&extract.Options{EventLogLocation: p, FirmwareManufacturer: "Google, Inc.", Getter: net, UEFIVariableReader: reader})
 				}
 			} else {
 				mode := r.Intn(4, "chunk-mode")
@@ -288,19 +297,29 @@ func runC07(r *core.Run) {
 				name, call = "SP800155Event3.UnmarshalFromBytes", func() { (&eventlog.SP800155Event3{}).UnmarshalFromBytes(p) }
 			}
 		default: // locators and variable names
-			loc, o := corruptN(r, varLoc, []byte(SnpURL(meas)), "locator")
+			base := varLoc
+			if r.Chance(25, "short-variable?") {
+				base = varLocator(guid, ucs2("Short"))
+			}
+			loc, o := corruptN(r, base, []byte(SnpURL(meas)), "locator")
+			if r.Chance(30, "locator-intact?") {
+				loc, o = base, "intact"
+			}
 			loc = r.Blob(fmt.Sprintf("in%d", i), func() []byte { return loc })
 			ops, inputLen = o, len(loc)
 			if r.Bool("read-variable") {
-				name, call = "EfiVarFSReader.ReadVariable", func() { exel.MakeEfiVarFSReader(efiRoot).ReadVariable(guid, loc) }
+				name, call = "EfiVarFSReader.ReadVariable", func() { reader.ReadVariable(guid, loc) }
 			} else {
 				typ := uint32(r.Intn(5, "locator-type"))
 				name, call = "exel.Locate", func() {
-					exel.Locate(typ, loc, &exel.LocateOptions{Getter: net, UEFIVariableReader: exel.MakeEfiVarFSReader(efiRoot)})
+					exel.Locate(typ, loc, &exel.LocateOptions{Getter: net, UEFIVariableReader: reader})
 				}
 			}
 		}
-		res := monitored(call)
+		// every entry point is called twice in a row on the same objects: the second call must be as
+		// total as the first (readers, options and validators may be long-lived)
+		once := call
+		res := monitored(func() { once(); once() })
 		r.Faults["corrupt"]++
 		outcome := "returned"
 		switch {
@@ -337,7 +356,23 @@ func fieldMutate(r *core.Run, a *Party, is *Issued) ([]byte, string) {
 		return bytes.Repeat([]byte{byte(r.Intn(256, label+"-byte"))}, n)
 	}
 	for i, n := 0, 1+r.Intn(2, "fields"); i < n; i++ {
-		switch f := r.Intn(12, "field"); f {
+		switch f := r.Intn(13, "field"); f {
+		case 12:
+			// a certificate the right root really issued, for a key that is not RSA
+			var pub any
+			if r.Bool("ed25519") {
+				p, _, _ := ed25519.GenerateKey(core.NewDetReader(3))
+				pub = p
+			} else {
+				k, _ := ecdsa.GenerateKey(elliptic.P256(), rand.Reader)
+				pub = &k.PublicKey
+			}
+			t := &x509.Certificate{SerialNumber: big.NewInt(91), Subject: pkix.Name{CommonName: "non-rsa-signer"}, NotBefore: is.Cert.NotBefore, NotAfter: is.Cert.NotAfter,
+				KeyUsage: x509.KeyUsageDigitalSignature, SignatureAlgorithm: x509.SHA256WithRSAPSS, BasicConstraintsValid: true}
+			if der, err := x509.CreateCertificate(rand.Reader, t, a.Root, pub, a.RootKey); err == nil {
+				g.Cert = der
+			}
+			ops = append(ops, "field:cert=non-rsa-key-issued-by-root")
 		case 0:
 			g.ClSpec, g.Commit = 0, short("commit")
 			ops = append(ops, fmt.Sprintf("field:commit[%d]", len(g.Commit)))
